@@ -1182,6 +1182,14 @@ def check_C20(tier, seed):
             urc, uout, uerr = -14, b"", b"timeout"
         ev = {"id": s["id"], "a": "Tools", "unber_exit": urc if urc >= 0 else 0, "unber_signal": -urc if urc < 0 else 0,
               "unber_diag": bool(uerr.strip()), "detail": uerr.decode(errors="replace")[-300:]}
+        try:
+            r3 = subprocess.run([tools["unber"], p], stdout=subprocess.PIPE, stderr=subprocess.PIPE, timeout=20, env=env)
+            prc = r3.returncode
+            if prc < 0:
+                ev["pretty_detail"] = r3.stderr.decode(errors="replace")[-400:]
+        except subprocess.TimeoutExpired:
+            prc = -14
+        ev.update({"pretty_exit": prc if prc >= 0 else 0, "pretty_signal": -prc if prc < 0 else 0})
         if s["mode"] == "roundtrip":
             fields = []
             for line in uout.decode(errors="replace").splitlines():
